@@ -4,14 +4,20 @@
 //! on the current thread, so that an external model can be given exactly the libm
 //! facts (`argument -> result`) the code relied on.
 
-use std::cell::RefCell;
+use std::cell::{Cell, RefCell};
 
 thread_local! {
 	static POWF32_LOG: RefCell<Vec<(u32, u32, u32)>> = const { RefCell::new(Vec::new()) };
+	// recording starts on a thread the first time it asks for the log, so that threads
+	// that never do (e.g. an audio thread watched for heap allocations) are left alone
+	static POWF32_LOG_ENABLED: Cell<bool> = const { Cell::new(false) };
 }
 
 /// Records one `base.powf(arg) == result` fact (as bit patterns) on this thread.
 pub fn log_powf32(base: f32, arg: f32, result: f32) {
+	if !POWF32_LOG_ENABLED.with(|e| e.get()) {
+		return;
+	}
 	POWF32_LOG.with(|log| {
 		let mut log = log.borrow_mut();
 		// bounded: the harness drains it regularly
@@ -21,8 +27,9 @@ pub fn log_powf32(base: f32, arg: f32, result: f32) {
 	});
 }
 
-/// Takes (and clears) the facts recorded on this thread.
+/// Takes (and clears) the facts recorded on this thread, and turns recording on for it.
 pub fn take_powf32_log() -> Vec<(u32, u32, u32)> {
+	POWF32_LOG_ENABLED.with(|e| e.set(true));
 	POWF32_LOG.with(|log| std::mem::take(&mut *log.borrow_mut()))
 }
 
